@@ -121,9 +121,9 @@ theorem addName_spec (names : List N) (n : N) (hnd : names.Nodup) :
     (addName names n).idxOf n = names.idxOf n := by
   unfold addName
   by_cases h : n ∈ names
-  · simp only [h, if_true]
-    exact ⟨⟨[], by simp⟩, hnd, trivial, rfl⟩
-  · simp only [h, if_false]
+  · rw [if_pos h]
+    exact ⟨⟨[], by simp⟩, hnd, h, rfl⟩
+  · rw [if_neg h]
     refine ⟨⟨[n], rfl⟩, ?_, by simp, ?_⟩
     · rw [List.nodup_append]
       refine ⟨hnd, by simp, ?_⟩
@@ -272,4 +272,290 @@ theorem sameMap_of_perm {s s' : Step N V} (h : s.Perm s') (hnd : (s.map Prod.fst
     exact h.mem_iff.1 hl
 
 end Core
+/-! ### Tree serialisation -/
+section Ser
+variable {A B A' B' : Type}
+
+theorem ser_head (ea : A → A') (eb : B → B') (t : CTree A B) : ∃ a r, ser ea eb t = Tok.opn a :: r := by
+  cases t with
+  | node a ps kids => exact ⟨ea a, _, by rw [ser]⟩
+
+theorem serF_cls_head (ea : A → A') (eb : B → B') (f : CForest A B) (r : List (Tok A' B')) :
+    ∀ b r', serF ea eb f ++ Tok.cls :: r ≠ Tok.par b :: r' := by
+  intro b r'
+  cases f with
+  | nil => simp [serF]
+  | cons t ts =>
+    obtain ⟨a, q, h⟩ := ser_head ea eb t
+    simp [serF, h]
+
+theorem params_prefix (eb : B → B') (hb : ∀ x y, eb x = eb y → x = y) (ps qs : List B)
+    (r1 r2 : List (Tok A' B')) (h1 : ∀ b r', r1 ≠ Tok.par b :: r') (h2 : ∀ b r', r2 ≠ Tok.par b :: r')
+    (h : ps.map (fun p => Tok.par (eb p)) ++ r1 = qs.map (fun p => Tok.par (eb p)) ++ r2) :
+    ps = qs ∧ r1 = r2 := by
+  induction ps generalizing qs with
+  | nil =>
+    cases qs with
+    | nil => exact ⟨rfl, by simpa using h⟩
+    | cons q qs => exact absurd (by simpa using h) (h1 (eb q) _)
+  | cons p ps ih =>
+    cases qs with
+    | nil => exact absurd (by simpa using h.symm) (h2 (eb p) _)
+    | cons q qs =>
+      simp only [List.map_cons, List.cons_append, List.cons.injEq, Tok.par.injEq] at h
+      obtain ⟨rfl, rfl⟩ := ih qs h.2
+      exact ⟨by rw [hb _ _ h.1], rfl⟩
+
+mutual
+  theorem ser_prefix (ea : A → A') (eb : B → B') (ha : ∀ x y, ea x = ea y → x = y)
+      (hb : ∀ x y, eb x = eb y → x = y) :
+      ∀ (t t' : CTree A B) (r r' : List (Tok A' B')), ser ea eb t ++ r = ser ea eb t' ++ r' → t = t' ∧ r = r'
+    | .node a ps kids, .node a' ps' kids', r, r', h => by
+      simp only [ser, List.cons_append, List.append_assoc, List.cons.injEq, Tok.opn.injEq] at h
+      obtain ⟨h0, h⟩ := h
+      have hp := params_prefix eb hb ps ps' _ _ (serF_cls_head ea eb kids r) (serF_cls_head ea eb kids' r')
+        (by simpa using h)
+      obtain ⟨hk, hr⟩ := serF_prefix ea eb ha hb kids kids' r r' hp.2
+      exact ⟨by rw [ha _ _ h0, hp.1, hk], hr⟩
+  theorem serF_prefix (ea : A → A') (eb : B → B') (ha : ∀ x y, ea x = ea y → x = y)
+      (hb : ∀ x y, eb x = eb y → x = y) :
+      ∀ (f f' : CForest A B) (r r' : List (Tok A' B')),
+        serF ea eb f ++ Tok.cls :: r = serF ea eb f' ++ Tok.cls :: r' → f = f' ∧ r = r'
+    | .nil, .nil, r, r', h => by simpa [serF] using h
+    | .nil, .cons t ts, r, r', h => by
+      obtain ⟨a, q, hq⟩ := ser_head ea eb t
+      simp [serF, hq] at h
+    | .cons t ts, .nil, r, r', h => by
+      obtain ⟨a, q, hq⟩ := ser_head ea eb t
+      simp [serF, hq] at h
+    | .cons t ts, .cons t' ts', r, r', h => by
+      simp only [serF, List.append_assoc] at h
+      obtain ⟨ht, hrest⟩ := ser_prefix ea eb ha hb t t' _ _ h
+      obtain ⟨hts, hr⟩ := serF_prefix ea eb ha hb ts ts' r r' hrest
+      exact ⟨by rw [ht, hts], hr⟩
+end
+
+mutual
+  theorem cloneT_id : ∀ t : CTree A B, cloneT t = t
+    | .node a ps kids => by simp [cloneT, cloneF_id kids]
+  theorem cloneF_id : ∀ f : CForest A B, cloneF f = f
+    | .nil => rfl
+    | .cons t ts => by simp [cloneF, cloneT_id t, cloneF_id ts]
+end
+
+mutual
+  theorem names_in_ser (ea : A → A') (eb : B → B') :
+      ∀ (t : CTree A B) (a : A), a ∈ nodeNames t → Tok.opn (ea a) ∈ ser ea eb t
+    | .node a0 ps kids, a, h => by
+      simp only [nodeNames, List.mem_cons] at h
+      simp only [ser, List.mem_cons, List.mem_append]
+      rcases h with rfl | h
+      · exact Or.inl rfl
+      · exact Or.inr (Or.inr (Or.inl (names_in_serF ea eb kids a h)))
+  theorem names_in_serF (ea : A → A') (eb : B → B') :
+      ∀ (f : CForest A B) (a : A), a ∈ forestNames f → Tok.opn (ea a) ∈ serF ea eb f
+    | .nil, a, h => by simp [forestNames] at h
+    | .cons t ts, a, h => by
+      simp only [forestNames, List.mem_append] at h
+      simp only [serF, List.mem_append]
+      rcases h with h | h
+      · exact Or.inl (names_in_ser ea eb t a h)
+      · exact Or.inr (names_in_serF ea eb ts a h)
+end
+
+end Ser
+
+/-! ### Logger execution, sequences of executions -/
+section Exec
+variable {N V : Type} [DecidableEq N]
+
+theorem loggerExec_ok (iterName : N) (rules : List (Rule N V)) (it : Option V) (log log' : Log N V)
+    (h : loggerExec iterName rules it log = .ok log') :
+    noFail rules ∧ log' = log ++ (specStepO iterName rules it).toList := by
+  unfold loggerExec at h
+  cases he : execRules rules [] with
+  | error e => simp [he] at h
+  | ok step =>
+    have hnf := execRules_ok_noFail rules [] step he
+    rw [execRules_nil_eq rules hnf] at h
+    refine ⟨hnf, ?_⟩
+    simp only at h
+    unfold specStepO
+    by_cases hem : (dedup (fired rules)).isEmpty = true
+    · simp only [hem, if_true] at h ⊢
+      cases h; simp
+    · simp only [hem, if_false, Bool.false_eq_true] at h ⊢
+      unfold pushIteration at h
+      by_cases hc : contains (dedup (fired rules)) iterName = true
+      · simp only [hc, if_true] at h ⊢
+        cases h; rfl
+      · simp only [hc, if_false, Bool.false_eq_true] at h ⊢
+        cases it with
+        | none => simp at h
+        | some v => simp only at h; cases h; rfl
+
+theorem loggerExec_of_noFail (iterName : N) (rules : List (Rule N V)) (v : V) (log : Log N V)
+    (h : noFail rules) :
+    loggerExec iterName rules (some v) log = .ok (log ++ (specStep iterName rules v).toList) := by
+  unfold loggerExec specStep specStepO
+  rw [execRules_nil_eq rules h]
+  by_cases hem : (dedup (fired rules)).isEmpty = true
+  · simp [hem]
+  · simp only [hem, if_false, Bool.false_eq_true]
+    unfold pushIteration
+    by_cases hc : contains (dedup (fired rules)) iterName = true
+    · simp [hc]
+    · simp [hc]
+
+theorem runExecs_append (iterName : N) (a b : List (List (Rule N V) × Option V)) (log : Log N V) :
+    runExecs iterName (a ++ b) log =
+      match runExecs iterName a log with
+      | .ok l => runExecs iterName b l
+      | .error e => .error e := by
+  induction a generalizing log with
+  | nil => simp [runExecs]
+  | cons x xs ih =>
+    obtain ⟨rules, it⟩ := x
+    simp only [List.cons_append, runExecs]
+    cases loggerExec iterName rules it log with
+    | error e => rfl
+    | ok l => exact ih l
+
+theorem runExecs_concat (iterName : N) (execs : List (List (Rule N V) × Option V)) (log log' : Log N V)
+    (h : runExecs iterName execs log = .ok log') :
+    log' = log ++ execs.filterMap (fun e => specStepO iterName e.1 e.2) := by
+  induction execs generalizing log with
+  | nil => simp only [runExecs] at h; cases h; simp
+  | cons x xs ih =>
+    obtain ⟨rules, it⟩ := x
+    simp only [runExecs] at h
+    cases hl : loggerExec iterName rules it log with
+    | error e => simp [hl] at h
+    | ok l =>
+      simp only [hl] at h
+      have h1 := (loggerExec_ok iterName rules it log l hl).2
+      have h2 := ih l h
+      rw [h2, h1, List.filterMap_cons]
+      cases specStepO iterName rules it <;> simp
+
+end Exec
+
+/-! ### The program language -/
+
+theorem evalRules_fst (env : Env) (rs : List RuleSt) (s : Step String Nat) :
+    (evalRules env rs s).1 = execRules (resolve env rs) s := by
+  induction rs generalizing s with
+  | nil => rfl
+  | cons r rs ih =>
+    simp only [evalRules, resolve, List.map_cons, execRules]
+    cases h : evalTrig env r.trig with
+    | mk o t =>
+      cases o <;> simp only [] <;> first | rfl | exact ih _
+
+theorem evalRules_snd (env : Env) (rs : List RuleSt) (s : Step String Nat) (h : noFail (resolve env rs)) :
+    (evalRules env rs s).2 = advance env rs := by
+  induction rs generalizing s with
+  | nil => rfl
+  | cons r rs ih =>
+    have hr := h _ (List.mem_cons_self ..)
+    have hrs : noFail (resolve env rs) := fun x hx => h x (List.mem_cons_of_mem _ hx)
+    simp only [evalRules, advance, List.map_cons]
+    simp only [resolve, List.map_cons] at hr
+    cases ht : evalTrig env r.trig with
+    | mk o t =>
+      simp only [ht] at hr
+      cases o
+      · simp only []; rw [ih _ hrs]; rfl
+      · simp only []; rw [ih _ hrs]; rfl
+      · simp at hr
+      · simp at hr
+
+theorem doLog_trace (s s' : St) (h : doLog s = .ok s') :
+    ∃ tr, s'.trace = s.trace ++ tr ∧ runExecs iterName tr s.log = .ok s'.log := by
+  unfold doLog at h
+  cases hr : s.rules with
+  | none => simp only [hr] at h; cases h; exact ⟨[], by simp, rfl⟩
+  | some rs =>
+    simp only [hr] at h
+    rw [evalRules_fst] at h
+    refine ⟨[(resolve s.env rs, getIters s.env)], ?_, ?_⟩
+    · cases he : execRules (resolve s.env rs) [] with
+      | error e => simp [he] at h
+      | ok step =>
+        simp only [he] at h
+        split at h
+        · cases h; rfl
+        · split at h
+          · cases h
+          · cases h; rfl
+    · simp only [runExecs, loggerExec]
+      cases he : execRules (resolve s.env rs) [] with
+      | error e => simp [he] at h
+      | ok step =>
+        simp only [he] at h ⊢
+        split at h
+        · rename_i hem; cases h; simp [hem]
+        · rename_i hem
+          simp only [hem, if_false, Bool.false_eq_true]
+          split at h
+          · cases h
+          · rename_i st hst; cases h; simp [hst]
+
+def TraceOk (s s' : St) : Prop :=
+  ∃ tr, s'.trace = s.trace ++ tr ∧ runExecs iterName tr s.log = .ok s'.log
+
+theorem TraceOk.refl (s : St) : TraceOk s s := ⟨[], by simp, rfl⟩
+
+theorem TraceOk.trans {a b c : St} (h1 : TraceOk a b) (h2 : TraceOk b c) : TraceOk a c := by
+  obtain ⟨t1, e1, r1⟩ := h1
+  obtain ⟨t2, e2, r2⟩ := h2
+  refine ⟨t1 ++ t2, by rw [e2, e1, List.append_assoc], ?_⟩
+  rw [runExecs_append, r1]; exact r2
+
+theorem TraceOk.of_env {a b : St} (h : TraceOk a b) (env env' : Env) :
+    TraceOk { a with env := env } { b with env := env' } := h
+
+mutual
+  theorem exec_trace : ∀ (f : Nat) (t : Node) (s s' : St), exec f t s = .ok s' → TraceOk s s'
+    | 0, _, _, _, h => by simp [exec] at h
+    | _ + 1, .log, s, s', h => by simp only [exec] at h; exact doLog_trace s s' h
+    | _ + 1, .setx v, s, s', h => by simp only [exec] at h; cases h; exact TraceOk.refl s
+    | _ + 1, .addx k, s, s', h => by simp only [exec] at h; cases h; exact TraceOk.refl s
+    | f + 1, .loop n body, s, s', h => by simp only [exec] at h; exact loopGo_trace f n body s s' h
+    | f + 1, .scope body, s, s', h => by
+      simp only [exec] at h
+      split at h
+      · rename_i s1 hs1
+        cases h
+        have := execs_trace f body _ s1 hs1
+        exact this
+      · cases h
+  theorem execs_trace : ∀ (f : Nat) (ts : Nodes) (s s' : St), execs f ts s = .ok s' → TraceOk s s'
+    | 0, _, _, _, h => by simp [execs] at h
+    | _ + 1, .nil, s, s', h => by simp only [execs] at h; cases h; exact TraceOk.refl s
+    | f + 1, .cons t ts, s, s', h => by
+      simp only [execs] at h
+      split at h
+      · rename_i s1 hs1
+        exact (exec_trace f t s s1 hs1).trans (execs_trace f ts s1 s' h)
+      · cases h
+  theorem loopGo_trace : ∀ (f n : Nat) (body : Nodes) (s s' : St), loopGo f n body s = .ok s' → TraceOk s s'
+    | 0, _, _, _, _, h => by simp [loopGo] at h
+    | f + 1, n, body, s, s', h => by
+      simp only [loopGo] at h
+      split at h
+      · cases h
+      · split at h
+        · split at h
+          · cases h
+          · rename_i s1 hs1
+            split at h
+            · cases h
+            · rename_i env' henv
+              have h2 := loopGo_trace f n body _ s' h
+              have h3 : TraceOk s1 s' := h2
+              exact (execs_trace f body s s1 hs1).trans h3
+        · cases h; exact TraceOk.refl s
+end
+
 end MahfModel.Log
